@@ -19,6 +19,10 @@ pub struct HCase {
     pub steps: Vec<Step>,
     #[serde(default)]
     pub excluded: Vec<String>,
+    /// no reads between the steps (every read is a committing transaction and moves the horizon): the state is
+    /// compared once, after the last step
+    #[serde(default)]
+    pub quiet: bool,
 }
 
 const ASSUME: &[&str] = &[
@@ -45,6 +49,9 @@ fn run(c: &HCase) -> CaseOut {
         it.reopen_cfgs = c.reopen_cfgs.clone();
     }
     it.audit_pages = mode == "c11" || mode == "c13";
+    if c.quiet {
+        it.check_state_every_step = false;
+    }
     it.vacuum_aborts_sessions = mode == "c13";
     let mut fail: Option<Failure> = None;
     let mut write_after_reopen = false;
@@ -75,6 +82,11 @@ fn run(c: &HCase) -> CaseOut {
         if let Some(f) = r {
             fail = classify(mode, &it, f, &mut out);
             break;
+        }
+    }
+    if fail.is_none() && c.quiet && it.db.usable() && it.txns.is_empty() {
+        if let Some(f) = it.check_now("after the last step of a history without intermediate reads") {
+            fail = classify(mode, &it, f, &mut out);
         }
     }
     if fail.is_none() && out.labels.iter().all(|l| !l.starts_with("abandoned")) && it.db.usable() {
@@ -214,7 +226,7 @@ fn shard(ctx: &mut ShardCtx, mode: &'static str, quick: u64, thorough: u64) {
             steps.push(if mode == "c09" { Step::Reopen(1) } else { Step::Vacuum });
             steps.push(Step::Auto(AStmt::Insert { t: 0, rows: vec![vec![AVal::Pool(9), AVal::Pool(8), AVal::Pool(7), AVal::Pool(6), AVal::Pool(5)]], partial: false }));
         }
-        HCase { mode: mode.to_string(), cfg, reopen_cfgs, steps, excluded: excluded.clone() }
+        HCase { mode: mode.to_string(), cfg, reopen_cfgs, steps, excluded: excluded.clone(), quiet: false }
     });
     ctx.search("history", strat, n, &run);
     if mode == "c11" {
@@ -239,6 +251,92 @@ fn shard(ctx: &mut ShardCtx, mode: &'static str, quick: u64, thorough: u64) {
         ctx.search("c11_tree_bulk", super::c10::gen_bulk(bulk_keys, desc), nb, &|c: &super::c10::BulkCase| own(super::c10::run_bulk(c)));
         let nt = ctx.share(ctx.tier.pick(3_000, 60_000));
         ctx.search("c11_tree_ops", super::c10::gen_case(200, small_only, false, cap), nt, &|c: &super::c10::TreeCase| own(super::c10::run_case(c, 1)));
+    }
+    if mode == "c09" || mode == "c13" {
+        // checkpoint while a session has uncommitted writes, the session then ends (rollback / drop / commit),
+        // and the database is closed without anything else dirtying a page
+        let excluded: Vec<String> = ctx.excludes.keys().cloned().collect();
+        let m = mode.to_string();
+        let strat = (prop::collection::vec(0u8..12, 0..3), prop::collection::vec(0u8..12, 1..4), 0u8..3, any::<bool>(), any::<bool>(), prop::collection::vec(0u8..12, 0..3), any::<bool>(), any::<bool>()).prop_map(move |(pre, inside, end, more_after_flush, read_before_close, post, quiet, with_flush)| {
+            let row = |v: u8| vec![AVal::Pool(v), AVal::Pool(v), AVal::Pool(v), AVal::Pool(v), AVal::Pool(v)];
+            let ins = |v: u8| AStmt::Insert { t: 0, rows: vec![row(v)], partial: false };
+            let mut steps = vec![Step::Auto(AStmt::Create { name: 0, cols: vec![ACol { ty: 0, not_null: false, default: None }, ACol { ty: 3, not_null: false, default: None }], pk: None, uniq: None })];
+            for v in pre {
+                steps.push(Step::Auto(ins(v)));
+            }
+            steps.push(Step::Begin(0));
+            for v in &inside {
+                steps.push(Step::Exec(0, ins(*v)));
+            }
+            if with_flush {
+                steps.push(Step::Flush);
+            }
+            if more_after_flush {
+                steps.push(Step::Exec(0, ins(inside[0])));
+            }
+            steps.push(match end {
+                0 => Step::Rollback(0),
+                1 => Step::DropSession(0),
+                _ => Step::Commit(0),
+            });
+            if read_before_close {
+                steps.push(Step::Auto(AStmt::Select { t: 0, pred: APred::True }));
+            }
+            steps.push(if m == "c13" { Step::Vacuum } else { Step::Reopen(0) });
+            steps.push(Step::Reopen(1));
+            for v in post {
+                steps.push(Step::Auto(ins(v)));
+            }
+            HCase { mode: m.clone(), cfg: Cfg::default(), reopen_cfgs: vec![], steps, excluded: excluded.clone(), quiet }
+        });
+        ctx.search("history", strat, n / 16 + 1, &run);
+    }
+    if mode == "c09" || mode == "c13" || mode == "c03" {
+        // many transaction ids: committed rows with small ids, then ids beyond the sizes of the persisted
+        // bookkeeping (1024 bytes / 8192 bits of aborted-transaction bitmap), then transactions that do not commit
+        let excluded: Vec<String> = ctx.excludes.keys().cloned().collect();
+        let m = mode.to_string();
+        // (ids beyond 8192: open finding F-C09-aborts-beyond-8192-forgotten)
+        let burn = if ctx.excluded("ids.noncommit_beyond_8192") { (1000u16..1100).boxed() } else { prop_oneof![6 => 1000u16..1100, 1 => 8150u16..8260].boxed() };
+        let strat = (prop::collection::vec(0u8..12, 1..5), burn, prop::collection::vec((0u8..12, 0u8..4), 1..5), any::<bool>(), prop::collection::vec(0u8..12, 0..3)).prop_map(move |(pre, burn, losers, flush, post)| {
+            let row = |v: u8| vec![AVal::Pool(v), AVal::Pool(v), AVal::Pool(v), AVal::Pool(v), AVal::Pool(v)];
+            let ins = |v: u8| AStmt::Insert { t: 0, rows: vec![row(v)], partial: false };
+            let mut steps = vec![Step::Auto(AStmt::Create { name: 0, cols: vec![ACol { ty: 0, not_null: false, default: None }, ACol { ty: 3, not_null: false, default: None }], pk: None, uniq: None })];
+            for v in pre {
+                steps.push(Step::Auto(ins(v)));
+            }
+            steps.push(Step::Burn(burn));
+            let _ = burn;
+            for (v, how) in losers {
+                match how {
+                    0 => {
+                        steps.push(Step::Begin(0));
+                        steps.push(Step::Exec(0, ins(v)));
+                        steps.push(Step::Rollback(0));
+                    }
+                    1 => {
+                        steps.push(Step::Begin(0));
+                        steps.push(Step::Rollback(0));
+                    }
+                    2 => {
+                        steps.push(Step::Begin(0));
+                        steps.push(Step::Exec(0, ins(v)));
+                        steps.push(Step::DropSession(0));
+                    }
+                    _ => steps.push(Step::Auto(AStmt::Bad { kind: BadKind::UnknownTable, t: 0 })),
+                }
+            }
+            if flush {
+                steps.push(Step::Flush);
+            }
+            steps.push(if m == "c13" { Step::Vacuum } else { Step::Reopen(0) });
+            steps.push(Step::Reopen(1));
+            for v in post {
+                steps.push(Step::Auto(ins(v)));
+            }
+            HCase { mode: m.clone(), cfg: Cfg::default(), reopen_cfgs: vec![], steps, excluded: excluded.clone(), quiet: false }
+        });
+        ctx.search("history", strat, n / 48 + 1, &run);
     }
     if mode == "c07" || mode == "c15" {
         // late index: CREATE UNIQUE INDEX over a table that already holds live rows around a dead one
@@ -275,7 +373,7 @@ fn shard(ctx: &mut ShardCtx, mode: &'static str, quick: u64, thorough: u64) {
             }
             steps.push(Step::Reopen(0));
             steps.push(ins(rest[0]));
-            HCase { mode: m.clone(), cfg: Cfg::default(), reopen_cfgs: vec![], steps, excluded: excluded.clone() }
+            HCase { mode: m.clone(), cfg: Cfg::default(), reopen_cfgs: vec![], steps, excluded: excluded.clone(), quiet: false }
         });
         ctx.search("history", strat, n / 16 + 1, &run);
     }
@@ -292,7 +390,7 @@ fn shard(ctx: &mut ShardCtx, mode: &'static str, quick: u64, thorough: u64) {
                 steps.push(Step::Auto(AStmt::Update { t: 0, col: 0, val: AVal::Pool(v), add: Some(add), pred: APred::True }));
                 steps.push(Step::Vacuum);
             }
-            HCase { mode: "c13".into(), cfg: Cfg::default(), reopen_cfgs: vec![], steps, excluded: excluded.clone() }
+            HCase { mode: "c13".into(), cfg: Cfg::default(), reopen_cfgs: vec![], steps, excluded: excluded.clone(), quiet: false }
         });
         ctx.search("history", strat, n / 20 + 1, &run);
     }
